@@ -96,6 +96,7 @@ def timestamp_to_sf_struct(ts: pa.Array | pa.ChunkedArray) -> pa.Array:
                 pa.field("fraction", nullable=False, type=pa.int32()),
                 pa.field("timezone", nullable=False, type=pa.int32()),
             ],
+            mask=ts.is_null(),
         )
     else:
         return pa.StructArray.from_arrays(
@@ -104,4 +105,5 @@ def timestamp_to_sf_struct(ts: pa.Array | pa.ChunkedArray) -> pa.Array:
                 pa.field("epoch", nullable=False, type=pa.int64()),
                 pa.field("fraction", nullable=False, type=pa.int32()),
             ],
+            mask=ts.is_null(),
         )
